@@ -5,7 +5,7 @@
 From AQ Require Import lib.Base gen.TlsDispatch model.TlsSM.
 From AQ Require Import proofs.TlsDispatchLegal proofs.TlsNoSkip proofs.TlsKeys proofs.TlsSkel proofs.TlsExamples.
 From AQ Require Import model.StreamRecv gen.TlsQuicGen model.TlsQuic.
-From AQ Require Import proofs.TlsQuicSkel proofs.TlsQuicP proofs.TlsQuicEpoch proofs.TlsQuicStream proofs.TlsQuicFrag.
+From AQ Require Import proofs.TlsQuicSkel proofs.TlsQuicP proofs.TlsQuicEpoch proofs.TlsQuicStream proofs.TlsQuicFrag proofs.TlsQuicBytes.
 
 (* all 13 states x all 256 type bytes: the generated table is TLS 1.3's legal-next relation; every
    other pair is refused with unexpected_message (10), state and keys unchanged *)
@@ -129,19 +129,20 @@ Theorem crypto_epoch_isolated_patched :
 Proof. exact crypto_epoch_isolated_patched_lemma. Qed.
 Print Assumptions crypto_epoch_isolated_patched.
 
-(* any cutting of a byte string B into CRYPTO frames of one packet -- any order, overlaps, repetitions, as long as every
+(* (every packet sent so far carried bytes: ops_bytes; the stream of epoch e has delivered all it received: flat base)
+   any cutting of a byte string B into CRYPTO frames of one packet -- any order, overlaps, repetitions, as long as every
    frame carries B's bytes for its offsets and every offset is covered -- has the TLS outcome of B in one frame: same
    verdict / close code, same Context.state, same dispatched messages with their outcomes and key callbacks (through the
    C10 receiver refinement frame_refines and the chunk-independence of handle_message's loop) *)
 Theorem fragmentation_independent :
   forall patched cl cfg0 orcs ops e base B fs,
     let c := run_conn patched (conn_init cl cfg0 orcs) ops in
-    bytes_ok (q_rbuf c) -> stream_of c e = flat base -> 0 <= base ->
+    ops_bytes ops -> stream_of c e = flat base -> 0 <= base ->
     bytes_ok B -> B <> [] -> base + Zlen B <= UINT_VAR_MAX -> Zlen B <= MAX_PENDING_CRYPTO ->
     Forall (fun f => slice_of B base (fst f) (snd f)) fs ->
     (forall o, base <= o < base + Zlen B -> Exists (covers o) fs) ->
     fview (frames_loop patched e c fs) = fview (frames_loop patched e c [(base, B)]).
-Proof. exact fragmentation_independent_lemma. Qed.
+Proof. exact fragmentation_independent_reach. Qed.
 Print Assumptions fragmentation_independent.
 
 (* the same when the frames are spread over several PACKETS: a client that receives Handshake packets (its Handshake
@@ -150,8 +151,8 @@ Print Assumptions fragmentation_independent.
 Theorem fragmentation_independent_packets :
   forall patched cfg0 orcs ops base B pkts,
     let c := run_conn patched (conn_init true cfg0 orcs) ops in
-    q_closed c = None -> kget (q_rk c) EP_HANDSHAKE = true ->
-    bytes_ok (q_rbuf c) -> stream_of c EP_HANDSHAKE = flat base -> 0 <= base ->
+    ops_bytes ops -> q_closed c = None -> kget (q_rk c) EP_HANDSHAKE = true ->
+    stream_of c EP_HANDSHAKE = flat base -> 0 <= base ->
     bytes_ok B -> B <> [] -> base + Zlen B <= UINT_VAR_MAX -> Zlen B <= MAX_PENDING_CRYPTO ->
     Forall (fun f : list (Z * list Z) => f <> []) pkts ->
     Forall (fun f => slice_of B base (fst f) (snd f)) (concat pkts) ->
@@ -163,5 +164,5 @@ Theorem fragmentation_independent_packets :
     | FClose code => q_closed cf = Some code /\ tlsproj (forget cf) = tlsproj (forget (snd W))
     | FExn _ => True
     end.
-Proof. exact fragmentation_independent_packets_lemma. Qed.
+Proof. exact fragmentation_independent_packets_reach. Qed.
 Print Assumptions fragmentation_independent_packets.
